@@ -231,6 +231,22 @@ fn stress(rep: &mut Report, rng: &mut Rng, idx: u64, log_threads: usize, swap_th
         specs[(g % 64) as usize].expected(t, l)
     };
     let desc = json!({"log_threads": log_threads, "swap_threads": swap_threads, "logs_per_thread": logs_per_thread, "swaps": n});
+    // per probe: invocation stamps of the swaps whose configuration is silent for it, with the running maximum of `dead`
+    let silent_index: Vec<(Vec<u64>, Vec<u64>)> = (0..PROBES.len())
+        .map(|p| {
+            let mut invs = vec![];
+            let mut pmax = vec![];
+            let mut m = 0u64;
+            for (i, s) in swaps.iter().enumerate() {
+                if expected(s.gen, p).is_empty() {
+                    m = m.max(dead[i]);
+                    invs.push(s.inv);
+                    pmax.push(m);
+                }
+            }
+            (invs, pmax)
+        })
+        .collect();
     for (sig, d) in online.lock().unwrap().drain(..) {
         rep.violation(&sig, json!({"run": desc, "detail": d}));
     }
@@ -241,20 +257,12 @@ fn stress(rep: &mut Report, rng: &mut Rng, idx: u64, log_threads: usize, swap_th
         let (t, lv) = PROBES[l.probe as usize];
         let pd = json!({"target": t, "level": lv.to_string(), "inv": l.inv, "ret": l.ret});
         let Some(g) = l.gen else {
-            // some admissible generation must explain the silence
-            let k = swaps.partition_point(|s| s.inv < l.ret);
-            let mut ok = false;
-            let mut scanned = 0;
-            for i in (0..k).rev() {
-                if dead[i] > l.inv && expected(swaps[i].gen, l.probe as usize).is_empty() {
-                    ok = true;
-                    break;
-                }
-                scanned += 1;
-                if scanned > 256 {
-                    break;
-                }
-            }
+            // some admissible generation must explain the silence: among the swaps invoked before the log
+            // returned whose configuration delivers nothing for this probe, one must not be definitely
+            // overwritten before the log began (exact query: prefix maximum of `dead` in invocation order)
+            let (invs, pmax) = &silent_index[l.probe as usize];
+            let k = invs.partition_point(|inv| *inv < l.ret);
+            let ok = k > 0 && pmax[k - 1] > l.inv;
             rep.count("silent_log_calls", 1);
             if !ok {
                 rep.violation("C15:record-dropped-under-every-admissible-configuration", json!({"run": desc, "probe": pd}));
@@ -757,8 +765,17 @@ pub fn run(rep: &mut Report) {
         run_cases(rep, "e2e", 8, e2e);
         std::env::remove_var("L4V_JOBS");
     }
+    if rep.tier == "thorough" && std::env::var("L4V_NO_MIRI").is_err() {
+        crate::miri::run_miri_seeds(rep, "C15", 32);
+        rep.require(rep.counter("miri_seeds_run") >= 32 / 2, "fewer than half of the Miri seeds produced a result");
+    }
     rep.require(rep.counter("swaps_performed") > 1000, "fewer than 1000 reconfigurations during the stress runs");
     rep.require(rep.counter("distinct_generations_observed_by_log_calls") > 200, "log calls observed fewer than 200 distinct generations: swaps and logs did not overlap");
     rep.require(rep.counter("polls_of_unchanged_file") > 20 && rep.counter("polls_of_broken_file") > 20 && rep.counter("polls_of_changed_valid_file") > 50,
         "reloader histories did not cover unchanged / broken / changed files often enough");
+}
+
+/// Tiny stress for Miri: 2 logging threads, 1 swapping thread, a dozen generations.
+pub fn miri_scenario(rep: &mut Report, rng: &mut Rng) {
+    stress(rep, rng, 0, 2, 1, 14, 10);
 }
